@@ -86,3 +86,13 @@ Theorem C07_event_post_is_the_code :
   forall s j, event_post_code s j = Some (event_post s j).
 Proof. exact event_post_is_the_code. Qed.
 Print Assumptions C07_event_post_is_the_code.
+
+(* non-vacuity of the hypotheses of the *_is_the_code theorems above: the initial loop state of a well-formed scenario, on
+   every poll method, has its int-typed counters in int range *)
+Example C07_link_hypotheses_hold :
+  forall be, In be [0; 1; 2; 3] ->
+    int_ok (last_abs_count (core0 (ex_all be)) + 1) /\ int_ok (numobjs (core0 (ex_all be)) + 1).
+Proof.
+  intros be H. cbn [In] in H. unfold int_ok.
+  destruct H as [<-|[<-|[<-|[<-|[]]]]]; vm_compute; repeat split; discriminate.
+Qed.
